@@ -73,7 +73,8 @@ func ValidateTable(sig, what string, data []byte, cfg gen.Cfg, wantMin, wantMax 
 	if checkLimits && (f.Min != wantMin || f.Max != wantMax) {
 		return f, Failf(sig+"/limits", "%s: header limits [%d,%d], source [%d,%d]", what, f.Min, f.Max, wantMin, wantMax)
 	}
-	if int(f.BlockSize) != cfg.EffBlockSize() {
+	// an unpadded table may also declare block size 0 ("no alignment"), which the format allows
+	if int(f.BlockSize) != cfg.EffBlockSize() && !(cfg.Unaligned && f.BlockSize == 0) {
 		return f, Failf(sig+"/blocksize", "%s: header block size %d, configured %d", what, f.BlockSize, cfg.EffBlockSize())
 	}
 	var gotR []gen.Ref
